@@ -37,34 +37,48 @@ Ltac icmp6_cks_sym :=
   [oks | oks | oks | reflexivity | reflexivity | cbn [length]; lia
   | cbn [length]; unfold bytes, byte in *; lia | reflexivity | reflexivity].
 
-(* icmp6SendPacket with any ICMPv6 message t :: c :: 0 :: 0 :: q *)
+(* icmp6SendPacket with any ICMPv6 message t :: c :: 0 :: 0 :: q.  The hop limit byte (frame offset 21) is
+   exactly what the code computes: 255 towards link-local destinations and for Neighbor Discovery types
+   133..137 (since fix 5a5618d), 64 otherwise. *)
+Definition icmp6_hop (di : bytes) (t : N) : N :=
+  if ll_unicast di || ll_multicast di || ((133 <=? t) && (t <=? 137)) then 255 else 64.
+
+Lemma icmp6_hop_ok_holds di t : ip6_ok di -> t < 256 -> icmp6_hop_ok t di (icmp6_hop di t) = true.
+Proof.
+  intros Hdi Ht. unfold icmp6_hop_ok, icmp6_hop. pose proof (linklocal_agree di Hdi) as HLL.
+  destruct ((133 <=? t) && (t <=? 137)).
+  - rewrite orb_true_r. reflexivity.
+  - rewrite orb_false_r. unfold ndp_hop_ok. destruct (ll_unicast di || ll_multicast di).
+    + destruct (ip6_is_linklocal di); reflexivity.
+    + destruct (ip6_is_linklocal di); [specialize (HLL eq_refl); discriminate|reflexivity].
+Qed.
+
 Lemma icmp6_generic c sm si dm di t cd q junk :
   mac_ok (host_mac c) -> mac_ok dm -> ip6_ok si -> ip6_ok di -> t < 256 -> cd < 256 ->
   bytes_ok q -> (length q <= 1464)%nat -> length junk = EthMaxSize ->
   exists fr, icmp6_send_packet c (sm, si) (dm, di) (t :: cd :: 0 :: 0 :: q) junk = Ok [fr] /\
-    wf_icmp6 (host_mac c) dm si di t cd (beq q) fr = true.
+    wf_icmp6 (host_mac c) dm si di t cd (beq q) fr = true /\ nth 21 fr 0 = icmp6_hop di t.
 Proof.
   intros H1 H2 H3 H4 Ht Hc Hq Hlen HJ.
   assert (HJ' : (58 <= length junk)%nat) by (rewrite HJ; unfold EthMaxSize; lia).
   destruct (split_at 58 junk HJ') as (j & rest & -> & Hj).
   assert (Hrest : (length q <= length rest)%nat) by (rewrite app_length in HJ; unfold EthMaxSize in HJ; lia).
   clear HJ HJ'.
+  pose proof (icmp6_hop_ok_holds di t H4 Ht) as HOK. unfold icmp6_hop in *.
   unfold icmp6_send_packet, ip6_append_payload. destruct c as [hm hip hlla rm rip mtu]. cbn [host_mac a_ip a_mac fst snd] in *.
   unfold bytes, byte in *.
   assert (E1 : Nat.ltb (EthMaxSize - 14 - 40) (length (t :: cd :: 0 :: 0 :: q)) = false).
   { apply Nat.ltb_ge. unfold EthMaxSize. cbn [length]. lia. }
   rewrite E1.
   replace (Nat.ltb (length (t :: cd :: 0 :: 0 :: q)) 4) with false by reflexivity.
-  pose proof (linklocal_agree di H4) as HLL.
+  change (nd_message (t :: cd :: 0 :: 0 :: q)) with ((133 <=? t) && (t <=? 137)).
   unfold wf_icmp6.
-  destruct (ll_unicast di || ll_multicast di);
+  destruct (ll_unicast di || ll_multicast di || (133 <=? t) && (t <=? 137));
   explode_ok hm H1; explode_ok dm H2; explode_ok si H3; explode_ok di H4; explode j Hj;
   (eexists; split; [cbn; rewrite firstn_blit0 by assumption; reflexivity|]);
-  abs_cks; cbn; len_conds; cbn; eqbs;
-  (repeat (apply andb_true_intro; split)); try apply beq_refl; try icmp6_cks_sym.
-  - unfold ndp_hop_ok. destruct (ip6_is_linklocal _); reflexivity.
-  - unfold ndp_hop_ok. destruct (ip6_is_linklocal _) eqn:E; [|reflexivity].
-    specialize (HLL eq_refl). discriminate.
+  (split; [|reflexivity]);
+  abs_cks; cbn -[icmp6_hop_ok]; len_conds; cbn -[icmp6_hop_ok]; eqbs;
+  (repeat (apply andb_true_intro; split)); try apply beq_refl; try exact HOK; try icmp6_cks_sym.
 Qed.
 
 (* ICMP6SendRouterAdvertisement: for every option block ob the marshalling accepts, the frame is an ICMPv6
@@ -87,8 +101,9 @@ Proof.
   rewrite E.
   assert (G : exists fr, icmp6_send_packet c (host_mac c, host_lla c) (dm, di) (134 :: 0 :: 0 :: 0 :: (ra_fixed ++ ob)) junk = Ok [fr] /\
                 wf_icmp6 (host_mac c) dm (host_lla c) di 134 0 (beq (ra_fixed ++ ob)) fr = true).
-  { apply icmp6_generic; auto; try lia.
+  { destruct (icmp6_generic c (host_mac c) (host_lla c) dm di 134 0 (ra_fixed ++ ob) junk) as (fr & E1 & W1 & _); auto; try lia.
     - apply bytes_ok_app. split; [unfold ra_fixed; oks|exact Hob].
-    - rewrite app_length. unfold ra_fixed. cbn [length]. unfold bytes, byte in *. lia. }
+    - rewrite app_length. unfold ra_fixed. cbn [length]. unfold bytes, byte in *. lia.
+    - exists fr. auto. }
   exact G.
 Qed.
